@@ -60,6 +60,12 @@ def restore_rule(prog: Program, rep, RID: str, modname: str, fname: str):
     if fname == "find_idom":
         # forward edges are removed explicitly in the same loop that adds the reversed ones
         pass
+    from rules.semantic import enclosing_tests as _et
+    for m_ in n_rev_added + n_fwd_removed:
+        conds = _et(f.node, m_)
+        if conds:
+            probs.append(f"the edit `{norm(m_)[:60]}` is made only under `{norm(conds[0][0])[:60]}` while the restore loop undoes it for every path edge "
+                         "(an edge that was not added is popped: a genuine arc disappears from the shared adjacency dict)")
     if len(n_rev_added) != 1 or len(n_fwd_removed) != 1:
         probs.append(f"expected one 'remove forward edge' and one 'add reversed edge' edit, found {len(n_fwd_removed)} / {len(n_rev_added)}")
     # restore: pop from adj_dict[v] and append v to adj_dict[u] with (u, v) = (p[i], p[i+1]) over range(len(p) - 1)
